@@ -9,6 +9,7 @@ package engine
 //@   props C11 C09 C19 C07
 //@   requires g != nil && g.returnResult != nil
 //@   requires !held(g.lock)
+//@   guard g.returnResult by g.lock
 //@   modifies mapcontents(g.returnResult)
 //@   ensures dom(g.returnResult) == setadd(old(dom(g.returnResult)), name)
 //@   ensures g.returnResult[name] == returnResult
